@@ -9,6 +9,7 @@ import (
 	"encoding/hex"
 	"fmt"
 	"math"
+	"math/big"
 	"sort"
 	"strconv"
 	"strings"
@@ -91,7 +92,8 @@ func genField(r *fw.Rand, key string) field {
 	switch r.Intn(9) {
 	case 0, 1:
 		f.kind = 'f'
-		vals := []float64{0, 1, -1, 1.5, -2.25, 1e10, 1e-10, 123456789.125, math.MaxFloat64, math.SmallestNonzeroFloat64, -0.0, 3.0}
+		vals := []float64{0, 1, -1, 1.5, -2.25, 1e10, 1e-10, 123456789.125, math.MaxFloat64, math.SmallestNonzeroFloat64, -0.0, 3.0,
+			-math.MaxFloat64, 1e308, -1e308, 1.5e308, 1e25, 1e26, 123456789012345678901234567.0, 1e-300}
 		f.f = vals[r.Intn(len(vals))]
 		if r.Chance(0.3) {
 			f.f = float64(int64(r.U64()>>12)) / 1024
@@ -165,13 +167,19 @@ func genPoint(r *fw.Rand, prec string) ipoint {
 	if r.Chance(0.8) {
 		p.hasT = true
 		mult := models.GetPrecisionMultiplier(prec)
-		switch r.Intn(6) {
+		switch r.Intn(7) {
 		case 0:
 			p.t = models.MaxNanoTime / mult
 		case 1:
 			p.t = models.MinNanoTime/mult + 1
 		case 2:
 			p.t = 0
+		case 3:
+			// a timestamp from the boundary set that is in range at this precision
+			p.t = 0
+			if in, _ := boundaryTimes(prec); len(in) > 0 {
+				p.t = in[r.Intn(len(in))]
+			}
 		default:
 			p.t = int64(1600000000)*int64(time.Second)/mult + int64(r.Intn(100000))
 		}
@@ -181,6 +189,41 @@ func genPoint(r *fw.Rand, prec string) ipoint {
 
 var tagEsc = strings.NewReplacer(",", "\\,", " ", "\\ ", "=", "\\=")
 var measEsc = strings.NewReplacer(",", "\\,", " ", "\\ ")
+
+// boundaryTimes: timestamps around the limits of the precision — those whose value in
+// nanoseconds lies in [MinNanoTime, MaxNanoTime] and those outside (computed without overflow).
+func boundaryTimes(prec string) (in, out []int64) {
+	mult := models.GetPrecisionMultiplier(prec)
+	cand := []int64{models.MaxNanoTime / mult, models.MaxNanoTime/mult + 1, models.MaxNanoTime/mult + 2, models.MinNanoTime / mult, models.MinNanoTime/mult - 1,
+		math.MaxInt64, math.MinInt64, math.MaxInt64 / 2, 1<<31 - 1, -(1 << 31), 1 << 31, 1 << 32, 1 << 40, -(1 << 40), 1 << 53, 1 << 62,
+		1700000000, 1700000000000, 1700000000000000, 153722867, 153722868, 2562047, 2562048, 5124096, 9223372036, 9223372037, 9223372036854, 9223372036855}
+	lo, hi := big.NewInt(models.MinNanoTime), big.NewInt(models.MaxNanoTime)
+	for _, c := range cand {
+		v := new(big.Int).Mul(big.NewInt(c), big.NewInt(mult))
+		if v.Cmp(lo) >= 0 && v.Cmp(hi) <= 0 {
+			in = append(in, c)
+		} else {
+			out = append(out, c)
+		}
+	}
+	return
+}
+
+// badNumberLines: lines that must be refused because a number does not fit its type: a
+// timestamp out of range at this precision, a float beyond MaxFloat64 written in plain decimal
+// (309 and 310 digits) or with an exponent, an integer beyond int64.
+func badNumberLines(r *fw.Rand, prec string) []string {
+	var out []string
+	if _, o := boundaryTimes(prec); len(o) > 0 {
+		for k := 0; k < 3; k++ {
+			out = append(out, fmt.Sprintf("m v=1 %d", o[r.Intn(len(o))]))
+		}
+	}
+	z := strings.Repeat("0", 308)
+	out = append(out, "m v=2"+z, "m v=-2"+z, "m v="+strings.Repeat("9", 309), "m v=-"+strings.Repeat("9", 309), "m v=18"+z[:307], "m v=1"+z+"0",
+		"m v=1e309", "m v=-1e309", "m v=1.8e308", "m v=2"+z+".5", "m v=9223372036854775808i", "m v=-9223372036854775809i")
+	return out
+}
 
 func (p ipoint) line(r *fw.Rand) string {
 	var b strings.Builder
@@ -370,6 +413,9 @@ func (Prop) Generate(r *fw.Rand, tier string) []fw.Case {
 			for j := 0; j <= k; j++ {
 				if j == badAt {
 					bad := []string{"cpu", "cpu value", "cpu,host value=1", "cpu value=", "cpu value=1 notatime", ",a=b v=1", "cpu,=b v=1", "cpu v=1i2", "cpu,a=1,a=2 v=1", "cpu v=1e9999", "cpu v=99999999999999999999i", "m v=1 1 1", "m,t v=1"}
+					if r.Intn(2) == 0 {
+						bad = badNumberLines(r, prec)
+					}
 					lines = append(lines, bad[r.Intn(len(bad))])
 					continue
 				}
